@@ -29,6 +29,7 @@ def sh(cmd, cwd=None, env=None, timeout=7200):
 def main(argv):
     prop, name = argv[0], argv[1]
     no_tests = "--no-tests" in argv
+    tests_only = "--tests-only" in argv
     checks = [prop]
     if "--checks" in argv:
         checks = argv[argv.index("--checks") + 1].split(",")
@@ -59,8 +60,9 @@ def main(argv):
             meta["pinned_suite_with_change"] = {"exit": rc, "passed": int(m[-1]) if m else None,
                                                 "failed": int(f[-1]) if f else 0, "wall_s": round(time.time() - t)}
             print("suite:", meta["pinned_suite_with_change"])
-        meta["checks"] = {}
-        for c in checks:
+        if not tests_only:
+            meta["checks"] = {}
+        for c in ([] if tests_only else checks):
             t = time.time()
             rc, out = sh(f"{VERIF}/check {c} quick", cwd=VERIF, env=dict(os.environ, VERIF_REPO=wt))
             found = [line for line in out.splitlines() if line.startswith("violation found")]
